@@ -145,6 +145,11 @@ D2OClause(e) ==
            scale == Add(Add(Abs(Ds), Abs(Hs)), Add(Abs(Hw), Abs(Dw)))
        IN IF ~Num(e.dstar) \/ ~CloseScaled(Mul(e.dstar.v, den), Sub(Hw, Hs), -10, MulP(scale, MaxD(One, Abs(e.dstar.v)), 14)) THEN "MatchPoint"
           ELSE IF ~Num(e.msld) \/ ~CloseScaled(e.msld.v, Mix2(Ds, Hs, e.dstar.v), -10, MulP(scale, MaxD(One, Abs(e.dstar.v)), 14)) THEN "MatchPointSld"
+          ELSE IF "om0" \in DOMAIN e /\
+                  (~CloseScaled(e.om0.re.v, e.om1.re.v, -9, MulP(scale, MaxD(One, Abs(e.dstar.v)), 14))
+                   \/ ~CloseScaled(e.omv.re.v, e.om1.re.v, -9, MulP(scale, MaxD(One, Abs(e.dstar.v)), 14))
+                   \/ ~CloseScaled(e.om1.re.v, e.msld.v, -9, MulP(scale, MaxD(One, Abs(e.dstar.v)), 14))) THEN "MatchPointIndependentOfVolumeFraction"
+          ELSE IF "molmatch" \in DOMAIN e /\ ~CloseScaled(e.molmatch.v, e.omv.re.v, -9, MulP(scale, MaxD(One, Abs(e.dstar.v)), 14)) THEN "MoleculeD2OsldAtMatchPoint"
           ELSE IF "mol" \notin DOMAIN e THEN "ok"
           ELSE IF ~CloseScaled(e.mol.match.v, MulInt(e.dstar.v, 100), -9, MulInt(MaxD(One, Abs(e.dstar.v)), 100)) THEN "MoleculeMatchPoint"
           ELSE IF ~CloseScaled(e.mol.sld.v, Hs, -10, scale) \/ ~CloseScaled(e.mol.Dsld.v, Ds, -10, scale) THEN "MoleculeSlds"
